@@ -15,6 +15,7 @@ import re
 import shutil
 import signal
 import subprocess
+import threading
 import time
 
 from . import common
@@ -49,6 +50,7 @@ class Drv:
         self.exe = os.path.join(d, "bin", "cproc")
         self.exe_nocc = os.path.join(d, "nocc", "cproc")   # same binary, no cproc-qbe beside it
         self.nrun = 0
+        self.lock = threading.Lock()
 
     def model_config(self, nocc=False):
         """Config object handed to the Lean model (drv_c17 / drv_c18)."""
@@ -58,12 +60,14 @@ class Drv:
                 "compilecmd": [(self.exe_nocc if nocc else self.exe) + "-qbe"],
                 "codegencmd": c["codegencmd"], "assemblecmd": c["assemblecmd"], "linkcmd": c["linkcmd"]}
 
-    def run(self, argv, script=None, files=(), timeout=20.0, nocc=False, rundir=None, keep=False):
+    def run(self, argv, script=None, files=(), timeout=20.0, nocc=False, rundir=None, keep=False, scan=False):
         """Run the driver on `argv` in a fresh private cwd containing `files` (relative paths,
         created with their own name as content).  Returns a Run."""
         if rundir is None:
-            self.nrun += 1
-            rundir = os.path.join(self.dir, "runs", "%d-%d" % (os.getpid(), self.nrun))
+            with self.lock:
+                self.nrun += 1
+                n = self.nrun
+            rundir = os.path.join(self.dir, "runs", "%d-%d" % (os.getpid(), n))
         cwd = os.path.join(rundir, "cwd")
         os.makedirs(cwd)
         for f in files:
@@ -95,24 +99,32 @@ class Drv:
             p = subprocess.Popen([self.exe_nocc if nocc else self.exe] + list(argv), cwd=cwd, env=env,
                                  stdin=fi, stdout=fo, stderr=fe, start_new_session=True)
             r.pid = p.pid
-            try:
-                r.rc = p.wait(timeout=timeout)
-                r.hang = False
-            except subprocess.TimeoutExpired:
-                r.hang = True
-                r.rc = None
+            # blocking wait + watchdog (no polling): on timeout freeze the picture with SIGSTOP,
+            # record who is still there, then kill the whole session
+            fired = []
+
+            def on_timeout():
+                fired.append(True)
+                r.survivors = _group_members(p.pid) if scan else []
+                try:
+                    os.killpg(p.pid, signal.SIGKILL)
+                except ProcessLookupError:
+                    pass
+            timer = threading.Timer(timeout, on_timeout)
+            timer.start()
+            rc = p.wait()
+            timer.cancel()
+            r.hang = bool(fired)
+            r.rc = None if r.hang else rc
         r.wall = time.time() - t0
-        # descendants still around (same session/process group as the driver)?
-        r.survivors = _group_members(r.pid)
-        if r.hang or r.survivors:
-            if r.hang:
-                time.sleep(0.05)
-            try:
-                os.killpg(r.pid, signal.SIGKILL)
-            except ProcessLookupError:
-                pass
-            if r.hang:
-                p.wait()
+        if not r.hang:
+            # descendants still around (same session as the driver)?
+            r.survivors = _group_members(r.pid) if scan else []
+            if r.survivors or not scan:
+                try:
+                    os.killpg(r.pid, signal.SIGKILL)
+                except ProcessLookupError:
+                    pass
         r.stderr = open(serr, errors="replace").read()
         r.stdout_len = os.path.getsize(sout)
         r.log = []
